@@ -3,6 +3,7 @@ import Driver.OpsPath
 import Driver.OpsKey
 import Driver.OpsLeaf
 import Driver.OpsMutate
+import Driver.OpsUpdate
 namespace Mxj.Drv
 
 def dispatch (op : String) (args : List String) : Out :=
@@ -18,6 +19,7 @@ def dispatch (op : String) (args : List String) : Out :=
   | "setv" => runP opSetv args
   | "remove" => runP opRemove args
   | "rename" => runP opRename args
+  | "upd" => runP opUpd args
   | _ => "bad-op"
 
 end Mxj.Drv
